@@ -31,6 +31,10 @@ type Case struct {
 	// Inspect: the translator runs with its request inspector switched on
 	// (translators.anthropic.inspector.enabled), which must not change what is sent upstream
 	Inspect bool `json:"inspect,omitempty"`
+	// handler sub-check: PadWS bytes of JSON whitespace are inserted after the opening brace (a large
+	// request without large generated content) and Chunked sends the body without a Content-Length
+	PadWS   int  `json:"pad_ws,omitempty"`
+	Chunked bool `json:"chunked,omitempty"`
 }
 
 var (
